@@ -116,6 +116,19 @@ def check(tier):
                  trusted=['CPython ast / re._parser / unicodedata of /venv', 'hand-written models of ~25 builtins and str methods (sa/strabs)',
                           'sys.get_int_max_str_digits() == 4300'],
                  assumptions=['no monkey-patching', 'options take values of the kind their defaults suggest (bool, str or None)'])
+    nsinks, nres = analyse(rep, tier)
+    rep.unit('modules', nres)
+    rep.unit('partial operations reached', nsinks)
+    rep.expect_at_least('C01.sink', 900, 'partial operations reached by the interpreter')
+    rep.expect_at_least('C01.result', 230, 'return paths')
+    rep.not_decided = ['%s: %s' % kv for kv in sorted(scope.C01_UNDECIDED_SINKS.items())]
+    return rep.finish()
+
+
+def analyse(rep, tier):
+    """All C01 obligations into `rep` (also used by C18: an exception that escapes is_valid() is a server error there)."""
+    from ..strabs.run import analyse_validate, get_interp
+    from ..reg import ReaderModel, Registry, registry_files
     I = get_interp()
     prog = I.prog
     nmods = is_valid_rule(rep, prog)
@@ -198,9 +211,4 @@ def check(tier):
                                                          else 'the result is not a string'))
         if not r['returns'] and not r['alarms']:
             rep.undecide('C01.result', file, 'no return path found by the interpreter')
-    rep.unit('modules', len(res))
-    rep.unit('partial operations reached', nsinks)
-    rep.expect_at_least('C01.sink', 900, 'partial operations reached by the interpreter')
-    rep.expect_at_least('C01.result', 230, 'return paths')
-    rep.not_decided = ['%s: %s' % kv for kv in sorted(undecided_keys.items())]
-    return rep.finish()
+    return nsinks, len(res)
